@@ -242,6 +242,39 @@ func DiffStoreKV(a, b *app.Haqq, store string, n int) []string {
 	return out
 }
 
+// KVDiff is one key on which two replicas' stores differ (nil = absent).
+type KVDiff struct{ Key, A, B []byte }
+
+// DiffStoreEntries lists every differing key of one store.
+func DiffStoreEntries(a, b *app.Haqq, store string) []KVDiff {
+	ka, kb := a.GetKey(store), b.GetKey(store)
+	if ka == nil || kb == nil {
+		return nil
+	}
+	sa := a.CommitMultiStore().GetKVStore(ka)
+	sb := b.CommitMultiStore().GetKVStore(kb)
+	var out []KVDiff
+	seen := map[string]bool{}
+	ia := sa.Iterator(nil, nil)
+	for ; ia.Valid(); ia.Next() {
+		k := append([]byte{}, ia.Key()...)
+		seen[string(k)] = true
+		vb := sb.Get(k)
+		if !bytes.Equal(ia.Value(), vb) {
+			out = append(out, KVDiff{k, append([]byte{}, ia.Value()...), vb})
+		}
+	}
+	ia.Close()
+	ib := sb.Iterator(nil, nil)
+	for ; ib.Valid(); ib.Next() {
+		if !seen[string(ib.Key())] {
+			out = append(out, KVDiff{append([]byte{}, ib.Key()...), nil, append([]byte{}, ib.Value()...)})
+		}
+	}
+	ib.Close()
+	return out
+}
+
 func trimB(b []byte) []byte {
 	if len(b) > 80 {
 		return b[:80]
